@@ -712,6 +712,15 @@ static bool gen_c14(uint64_t seed, const std::string &tier, uint64_t i, Plan &p)
   if (i % 5 == 3) { p.ops.push(Json::obj().set("op", "boot")); p.ops.push(Json::obj().set("op", "settle").set("max_s", (long long)(lifetime + 900000))); }
   p.knobs.set("expect_drain", true).set("max_sim_s", (long long)((lifetime + 900000) * 3));
   p.label = "msgs=" + std::to_string(nmsg) + (vd ? " vdoms" : "") + " lifetime=" + std::to_string(lifetime);
+  { bool has_control = false; for (auto &op : p.ops.a) if (op.gets("op") == "control") has_control = true;
+    if (i % 20 == 3 && vd && !has_control) {
+      // a catch-all line in virtualdomains (empty domain): every recipient outside the local and the listed domains is handed to the local
+      // channel under the catch-all's prefix, and a bounce must name it without that prefix (rewrite of the finished plan, no draws)
+      Json &cf = p.knobs.at("conf"); Json v2 = Json::arr(); for (auto &x : cf["virtualdomains"].a) v2.push(x); v2.push(":alias-all"); cf.set("virtualdomains", v2);
+      for (auto &op : p.ops.a) if (op.gets("op") == "script") { std::string a = op.gets("rcpt"); size_t at = a.rfind('@'); if (at == std::string::npos) continue; std::string d = a.substr(at + 1);
+        if (d == "r.example" || d == "lists.example" || d == "x.example") op.set("rcpt", "alias-all-" + a); }
+      p.label += " +catch-all virtual domain";
+    } }
   if (i % 20 == 11) {
     // recipients whose local part contains line breaks and text that looks like a bounce paragraph of its own: the envelope may hold
     // any byte but NUL, and a failure report for such a recipient must stay one paragraph under one name (the daemon writes '_' for a
